@@ -198,6 +198,13 @@ class FStr:
         return "f" + repr("".join(p if isinstance(p, str) else repr(p) for p in self.parts))
 
 
+class PSet(list):
+    """a Python set of model objects / values, kept in insertion order (membership by identity for model objects)"""
+    def add(self, x):
+        if not any(y is x or (not isinstance(x, Obj) and not isinstance(y, Obj) and y == x) for y in self):
+            self.append(x)
+
+
 class NDIndex:
     """an integer index array of two or more dimensions, as a subscript"""
     def __init__(self, shape, flat):
@@ -830,6 +837,10 @@ class TenSym(PySym):
                 return a ** b
         if isinstance(op, ast.Add) and isinstance(a, (list, tuple)) and isinstance(b, (list, tuple)) and type(a) is type(b):
             return a + b
+        if isinstance(op, ast.Mult) and isinstance(a, (list, tuple)) and isinstance(b, int) and not isinstance(b, bool):
+            return a * b
+        if isinstance(op, ast.Mult) and isinstance(b, (list, tuple)) and isinstance(a, int) and not isinstance(a, bool):
+            return b * a
         if isinstance(op, ast.MatMult):
             return self.dot(a, b)
         a, b = self.lift(a), self.lift(b)
@@ -978,6 +989,9 @@ class TenSym(PySym):
                     recv.append(v)
                 else:
                     recv.extend(self.iterate(v))
+                return None
+            if isinstance(recv, PSet) and m == "add":
+                recv.add(self.ex(n.args[0]))
                 return None
             if isinstance(recv, list) and m in ("insert", "remove", "pop", "index"):
                 args = [self.ex(a) for a in n.args]
@@ -1325,6 +1339,8 @@ class TenSym(PySym):
             return [items[i_] for i_ in order]
         if cn in ("np.fromiter",):
             return self.to_ten([x for x in self.iterate(A(0))])
+        if cn == "set" and not n.args:
+            return PSet()
         if cn in ("sorted", "min", "max", "reversed", "set", "abs") and cn != "abs":
             if cn in ("min", "max") and len(n.args) > 1:
                 vals = [self.pyval(self.ex(a)) for a in n.args]
@@ -1601,6 +1617,11 @@ class TenSym(PySym):
         elif isinstance(s, ast.AugAssign):
             if isinstance(s.target, ast.Subscript):
                 base = self.ex(s.target.value)
+                if isinstance(base, (list, dict)):
+                    k_ = self.ex(s.target.slice)
+                    k_ = self.concrete(k_) if isinstance(base, list) else self.pyval(k_)
+                    base[k_] = self.binop(s.op, base[k_], self.ex(s.value), s)
+                    return
                 if not isinstance(base, Ten):
                     raise Unsupported("in-place update of %s" % type(base).__name__)
                 self.setitem(base, self.key(s.target.slice), self.ex(s.value), op=lambda x, y: PySym.binop(self, s.op, x, y, s))
@@ -1628,7 +1649,7 @@ class TenSym(PySym):
             if isinstance(s.value, ast.Call) and (call_name(s.value) or "") in ("np.clip",) and any(k.arg == "out" for k in s.value.keywords):
                 self.ex(s.value)
                 return
-            if isinstance(s.value, ast.Call) and isinstance(s.value.func, ast.Attribute) and s.value.func.attr in ("append", "extend", "insert", "remove", "pop", "update"):
+            if isinstance(s.value, ast.Call) and isinstance(s.value.func, ast.Attribute) and s.value.func.attr in ("append", "extend", "insert", "remove", "pop", "update", "add"):
                 self.ex(s.value)
                 return
             if isinstance(s.value, ast.Call) and isinstance(s.value.func, ast.Attribute) and s.value.func.attr == "sort":
@@ -1701,6 +1722,37 @@ class TenSym(PySym):
                     break
             if not broke:
                 self.block(s.orelse)
+        elif isinstance(s, ast.While):
+            n_it = 0
+            broke = False
+            while self.truth(self.ex(s.test)):
+                n_it += 1
+                if n_it > 5000:
+                    raise Unsupported("while loop does not terminate on the model world (5000 iterations)")
+                try:
+                    self.block(s.body)
+                except TenSym._Continue:
+                    continue
+                except TenSym._Break:
+                    broke = True
+                    break
+            if not broke:
+                self.block(s.orelse)
+        elif isinstance(s, ast.Delete):
+            for t in s.targets:
+                if isinstance(t, ast.Subscript):
+                    base = self.ex(t.value)
+                    if isinstance(base, list):
+                        k_ = self.ex(t.slice) if not isinstance(t.slice, ast.Slice) else slice(*[None if x is None else self.concrete(self.ex(x)) for x in (t.slice.lower, t.slice.upper, t.slice.step)])
+                        del base[self.concrete(k_) if not isinstance(k_, slice) else k_]
+                        continue
+                    if isinstance(base, dict):
+                        del base[self.pyval(self.ex(t.slice))]
+                        continue
+                elif isinstance(t, ast.Name):
+                    self.env.pop(t.id, None)
+                    continue
+                raise Unsupported("del %s" % src(t)[:40])
         elif isinstance(s, ast.Continue):
             raise TenSym._Continue()
         elif isinstance(s, ast.Break):
